@@ -75,6 +75,13 @@ func VerifH_serveGRPC() {
 	srv.setHdr = metadata.MD{"x-h": []string{hv}}
 	rawBin := []byte{0xfb, 0xef, 0xbe} // base64 "++++": distinguishes the standard from the URL alphabet; symbolic bytes are covered by VerifH_binhdr
 	srv.setTrail = metadata.MD{"x-t": []string{tv}, "x-b-bin": []string{string(rawBin)}, "grpc-status": []string{"0"}, "grpc-message": []string{"forged"}}
+	// metadata set in several calls accumulates: a second SetHeader / SetTrailer with the SAME keys
+	twice := vfBool()
+	if twice {
+		srv.setHdr2 = metadata.MD{"x-h": []string{"h2"}}
+		srv.setTrail2 = metadata.MD{"x-t": []string{"t2"}, "x-b-bin": []string{"\x00\x01"}}
+		vfCover("metadata-set-twice")
+	}
 	payload := vfBytes(vfLen(2))
 	r := vfGRPCRequest("application/grpc+fake", payload, nil)
 	w := newFakeRW()
@@ -98,11 +105,17 @@ func VerifH_serveGRPC() {
 	}
 	// metadata
 	xh := w.sentHeader["X-H"]
-	vfCheck(len(xh) == 1 && xh[0] == hv, "header metadata set by the handler did not reach the client")
 	xt, ok := w.trailer("X-T")
-	vfCheck(ok && len(xt) == 1 && xt[0] == tv, "trailer metadata set by the handler did not reach the client")
-	xb, ok := w.trailer("X-B-Bin")
-	vfCheck(ok && len(xb) == 1 && (xb[0] == refBase64Encode(rawBin, false) || xb[0] == refBase64Encode(rawBin, true)), "binary trailer metadata is not the base64 of the handler's bytes")
+	xb, okb := w.trailer("X-B-Bin")
+	if twice {
+		vfCheck(len(xh) == 2 && xh[0] == hv && xh[1] == "h2", "header metadata set in two calls did not reach the client completely and in order")
+		vfCheck(ok && len(xt) == 2 && xt[0] == tv && xt[1] == "t2", "trailer metadata set in two calls did not reach the client completely and in order")
+		vfCheck(okb && len(xb) == 2 && (xb[1] == refBase64Encode([]byte{0, 1}, false) || xb[1] == refBase64Encode([]byte{0, 1}, true)), "binary trailer metadata set in two calls did not reach the client completely")
+	} else {
+		vfCheck(len(xh) == 1 && xh[0] == hv, "header metadata set by the handler did not reach the client")
+		vfCheck(ok && len(xt) == 1 && xt[0] == tv, "trailer metadata set by the handler did not reach the client")
+	}
+	vfCheck(okb && len(xb) >= 1 && (xb[0] == refBase64Encode(rawBin, false) || xb[0] == refBase64Encode(rawBin, true)), "binary trailer metadata is not the base64 of the handler's bytes")
 	// reply
 	if !fail {
 		want := append([]byte{0, 0, 0, 0, 5}, []byte("REPLY")...)
